@@ -416,7 +416,7 @@ pub fn close(a: Complex64, b: Complex64, scale: f64) -> bool {
 }
 
 pub enum Judged {
-    /// the original is not finite here, or the point is branch-cut sensitive: the statement excludes it
+    /// the original is not finite here, or the point is genuinely ambiguous: the statement excludes it
     NotJudged(&'static str),
     Same,
     Differs { original: Complex64, other: Option<Complex64> },
@@ -425,6 +425,110 @@ pub enum Judged {
 /// Compare `other` with `original` at `p` under the rules of DESIGN.md §2.2.
 pub fn judge(original: &Expression, other: &Expression, p: &Point) -> Judged {
     judge_opts(original, other, p, false)
+}
+
+fn on_negative_axis(c: Complex64) -> bool {
+    c.re < 0.0 && c.im.abs() <= 1e-6 * c.re.abs()
+}
+
+/// The ADMISSIBLE values of `e` at `p`: the evaluation of `e` where, at every `^` base / `sqrt` argument
+/// that lies on the negative real axis (within rounding), both signs of the zero imaginary part - i.e. both
+/// branches - are followed.  Quil has no negative literals (`-1.5` re-parses as `-(1.5)` = -1.5 - 0.0i) and
+/// rewriting `0 - 2` to `-(2)` flips the same sign, so either branch is a legitimate value of the expression;
+/// any *other* value (or NaN) is not.  None: a base within rounding of the origin (its argument is
+/// arbitrary), a missing name, or more than 32 combinations - genuinely ambiguous, not judged.
+fn admissible(e: &Expression, p: &Point) -> Option<Vec<Complex64>> {
+    fn push(out: &mut Vec<Complex64>, v: Complex64) {
+        if !out.iter().any(|w| *w == v || (w.is_nan() && v.is_nan())) {
+            out.push(v);
+        }
+    }
+    fn forks(base: Complex64) -> Option<Vec<Complex64>> {
+        if base.re == 0.0 && base.im == 0.0 {
+            return Some(vec![base]);
+        }
+        let n = base.norm();
+        if n.is_finite() && n < 1e-9 {
+            return None;
+        }
+        if on_negative_axis(base) {
+            // both sides of the cut, at the distance the value actually has (0.0 / -0.0 when it is exactly on it)
+            Some(vec![Complex64::new(base.re, base.im.abs()), Complex64::new(base.re, -base.im.abs())])
+        } else {
+            Some(vec![base])
+        }
+    }
+    let out = match e {
+        Expression::Number(c) => vec![*c],
+        Expression::PiConstant() => vec![Complex64::new(std::f64::consts::PI, 0.0)],
+        Expression::Variable(v) => vec![*p.vars.get(v)?],
+        Expression::Address(m) => vec![Complex64::new(*p.mem.get(&m.name)?.get(m.index as usize)?, 0.0)],
+        Expression::Prefix(x) => {
+            let inner = admissible(&x.expression, p)?;
+            match x.operator {
+                PrefixOperator::Minus => inner.into_iter().map(|v| -v).collect(),
+                PrefixOperator::Plus => inner,
+            }
+        }
+        Expression::FunctionCall(f) => {
+            let mut out = vec![];
+            for v in admissible(&f.expression, p)? {
+                let args = if f.function == ExpressionFunction::SquareRoot { forks(v)? } else { vec![v] };
+                for a in args {
+                    push(&mut out, match f.function {
+                        ExpressionFunction::Sine => a.sin(),
+                        ExpressionFunction::Cosine => a.cos(),
+                        ExpressionFunction::Exponent => a.exp(),
+                        ExpressionFunction::SquareRoot => a.sqrt(),
+                        ExpressionFunction::Cis => a.cos() + Complex64::new(0.0, 1.0) * a.sin(),
+                    });
+                }
+            }
+            out
+        }
+        Expression::Infix(i) => {
+            let ls = admissible(&i.left, p)?;
+            let rs = admissible(&i.right, p)?;
+            let mut out = vec![];
+            for l in &ls {
+                let bases = if i.operator == InfixOperator::Caret { forks(*l)? } else { vec![*l] };
+                for b in bases {
+                    for r in &rs {
+                        push(&mut out, match i.operator {
+                            InfixOperator::Caret => b.powc(*r),
+                            InfixOperator::Plus => b + r,
+                            InfixOperator::Minus => b - r,
+                            InfixOperator::Slash => b / r,
+                            InfixOperator::Star => b * r,
+                        });
+                    }
+                }
+            }
+            out
+        }
+    };
+    if out.len() > 32 {
+        return None;
+    }
+    Some(out)
+}
+
+/// The values `original` may legitimately take at `p` (one value, or the admissible set on a branch cut);
+/// None when the point is not judged at all (same exclusions as `judge_opts`).
+pub fn legitimate_values(original: &Expression, p: &Point, tolerances: bool) -> Option<Vec<Complex64>> {
+    let a = eval(original, p)?;
+    if !matches!(judge_opts(original, original, p, tolerances), Judged::Same) {
+        return None;
+    }
+    let (mut scale, mut cut, mut tol) = (0.0, false, false);
+    scan(original, p, &mut scale, &mut cut, &mut tol);
+    if cut {
+        let mut adm = admissible(original, p)?;
+        adm.push(a);
+        Some(adm)
+    } else {
+        Some(vec![a])
+    }
 }
 
 /// `tolerances`: also exclude points where a sub-expression of the original falls inside the simplifier's
@@ -438,11 +542,20 @@ pub fn judge_opts(original: &Expression, other: &Expression, p: &Point, toleranc
     let mut cut = false;
     let mut tol = false;
     scan(original, p, &mut scale, &mut cut, &mut tol);
-    if cut {
-        return Judged::NotJudged("branch cut");
-    }
     if tolerances && tol {
         return Judged::NotJudged("inside simplifier tolerance");
+    }
+    if cut {
+        // branch-cut sensitive: the value under test must be one of the admissible values
+        let Some(adm) = admissible(original, p) else { return Judged::NotJudged("branch cut") };
+        if adm.iter().any(|v| !v.re.is_finite() || !v.im.is_finite()) {
+            return Judged::NotJudged("branch cut");
+        }
+        let big = adm.iter().fold(scale, |s, v| s.max(v.norm()));
+        return match eval(other, p) {
+            Some(b) if close(a, b, scale) || adm.iter().any(|v| close(*v, b, big)) => Judged::Same,
+            b => Judged::Differs { original: a, other: b },
+        };
     }
     match eval(&flip_zero_im(original), p) {
         Some(f) if close(a, f, scale) => {}
